@@ -1092,6 +1092,36 @@ fn history_case(opts: &Opts, case: &Case, entry: &Entry, sink: &mut Sink) {
             }
         }
     }
+    // placements: the same text read from a buffer at every start address modulo 16 (k bytes of other text in front
+    // of it in one allocation, the parser is given the tail slice)
+    for (i, inp) in inputs.iter().enumerate() {
+        for k in 0..16usize {
+            let mut buf = String::with_capacity(k + inp.len() + 16);
+            for _ in 0..k {
+                buf.push('#');
+            }
+            buf.push_str(inp);
+            buf.push_str("#tail");
+            let text = &buf[k..k + inp.len()];
+            user::reset(answers.clone());
+            let r = (entry.run)(text, Mode::Plain);
+            sink.evaluations += 1;
+            sink.nontrivial += 1;
+            sink.bump("placement_parses", 1);
+            sink.bump(&format!("placement_address_mod_16_is_{}", text.as_ptr() as usize % 16), 1);
+            if r != baseline[i] {
+                sink.violation(
+                    case,
+                    inp,
+                    "result-depends-on-placement",
+                    format!("{} (parsed from a string of its own)", baseline[i].short()),
+                    r.short(),
+                    json!({"placement": format!("slice starting {k} bytes into an allocation, followed by other text; address modulo 16 = {}", text.as_ptr() as usize % 16)}),
+                );
+                return;
+            }
+        }
+    }
     let agrees = |real: &Real, exp: &Option<(bool, String)>| -> bool {
         match (real, exp) {
             (_, None) => true,
@@ -1103,13 +1133,14 @@ fn history_case(opts: &Opts, case: &Case, entry: &Entry, sink: &mut Sink) {
     let n = inputs.len();
     let depth3 = n.min(if opts.tier == refpeg::corpus::Tier::Quick { 8 } else { 12 });
     let mut seqs: Vec<Vec<usize>> = Vec::new();
+    let placement_only = case.note.contains("placement-only");
     for i in 0..n {
         seqs.push(vec![i]);
-        for j in 0..n {
+        for j in 0..(if placement_only { 0 } else { n }) {
             seqs.push(vec![i, j]);
         }
     }
-    for i in 0..depth3 {
+    for i in 0..(if placement_only { 0 } else { depth3 }) {
         for j in 0..depth3 {
             for k in 0..depth3 {
                 seqs.push(vec![i, j, k]);
